@@ -75,6 +75,22 @@ def projInsRunes (st : State) : Proj :=
     txid2rune := st.txid2rune, seq2rune := st.seq2rune, runes := st.runes,
     reservedRunes := st.reservedRunes }
 
+/-- the rune results alone: entries (with number, mints, burned, premine, terms …), name → id,
+balances per outpoint, etching txid → name, and the two counters (`statistic Runes`,
+`ReservedRunes`) — every rune table except SEQUENCE_NUMBER_TO_RUNE_ID, which is keyed by an
+inscription's sequence number and so depends on the inscription pass -/
+structure RuneProj where
+  runeEntries : List (RuneId × RuneEntry)
+  rune2id : List (Nat × RuneId)
+  balances : List (OutPoint × List (RuneId × Nat))
+  txid2rune : List (Txid × Nat)
+  runes : Nat
+  reservedRunes : Nat
+
+def projRunes (st : State) : RuneProj :=
+  { runeEntries := st.runeEntries, rune2id := st.rune2id, balances := st.balances,
+    txid2rune := st.txid2rune, runes := st.runes, reservedRunes := st.reservedRunes }
+
 /-- the two configurations differ at most in the three optional indexes -/
 def SameUpToOptionalIndexes (a b : Cfg) : Prop :=
   a.indexInscriptions = b.indexInscriptions ∧ a.indexRunes = b.indexRunes ∧
@@ -107,22 +123,48 @@ inscription height (inscriptions on), else the first rune height (runes on).  Be
 `Updater::get_block_with_retries` fetches the header only: the block arrives with no
 transactions.  Values of outputs created below that height and spent above it come from the
 node (`fetcher.rs`); the index model's local tracking *is* the specification of that path (the
-correspondence stream `signet` of `harness/flagsx` compares them). -/
+correspondence stream `signet` of `harness/flagsx` compares them).
 
-def Cfg.firstIndexHeight (cfg : Cfg) : Option Nat :=
+`fixed` = the repair of finding C15-S2 (notes/fix-C15-runes-first-index-height.diff) is present
+in the source: with inscriptions AND runes indexed the height is the smaller of the two
+activation heights.  The flag is read off the source text on every run
+(`tools/extractors/first_index_height.py` → `Generated/FirstIndexHeight.lean`); the theorems are
+stated for `false` (the unchanged code: `c15_fails_runes_below_first_index_height`) and for `true`
+(`c15_fixed_…`). -/
+
+def Cfg.firstIndexHeight (fixed : Bool) (cfg : Cfg) : Option Nat :=
   if cfg.indexSats || cfg.indexAddresses then some 0
-  else if cfg.indexInscriptions then some cfg.firstInscriptionHeight
+  else if cfg.indexInscriptions then
+    (if fixed && cfg.indexRunes then some (min cfg.firstInscriptionHeight cfg.firstRuneHeight)
+     else some cfg.firstInscriptionHeight)
   else if cfg.indexRunes then some cfg.firstRuneHeight
   else none
 
+/-- the block is delivered with its transactions (`height >= first_index_height`) -/
+def Cfg.fetchesFull (fixed : Bool) (cfg : Cfg) (height : Nat) : Bool :=
+  match cfg.firstIndexHeight fixed with
+  | some h => decide (height ≥ h)
+  | none => false
+
 /-- the block as `fetch_blocks_from` delivers it -/
-def fetchView (cfg : Cfg) (blk : Block) : Block :=
-  match cfg.firstIndexHeight with
+def fetchView (fixed : Bool) (cfg : Cfg) (blk : Block) : Block :=
+  match cfg.firstIndexHeight fixed with
   | some h => if blk.height ≥ h then blk else { blk with txs := [] }
   | none => { blk with txs := [] }
 
 /-- index the chain as the configuration sees it -/
-def runSeen (cfg : Cfg) (chain : List Block) : Outcome (State × List Event) :=
-  run cfg (chain.map (fetchView cfg))
+def runSeen (fixed : Bool) (cfg : Cfg) (chain : List Block) : Outcome (State × List Event) :=
+  run cfg (chain.map (fetchView fixed cfg))
+
+/-- One block as the configuration sees it, *with local tracking standing in for the node*: a
+block delivered header-only has no transaction for the rune updater, and the inscription updater
+is not active there either (`first_index_height ≤ first_inscription_height`); the values of its
+outputs, which the real index later obtains from the node (`fetcher.rs`) when they are spent
+above `first_index_height`, are tracked locally by the UTXO pass of the model.  This is what the
+driver of stream `signet` (`drv_flagsx`) folds over the sparse chain it is fed; on blocks
+delivered in full it is `applyBlock`. -/
+def applyBlockTracked (fixed : Bool) (cfg : Cfg) (st : State) (blk : Block) : Outcome (State × List Event) :=
+  if cfg.fetchesFull fixed blk.height then applyBlock cfg st blk
+  else applyBlock { cfg with indexRunes := false } st blk
 
 end Ord.Index
